@@ -92,6 +92,17 @@ func c10Isolation(c *Chooser, env *Env, defective, faults bool) *Outcome {
 			faultDesc += kind + "@" + target + ";"
 		}
 	}
+	if c.Weighted("world.workingdiropt", 1, 6) {
+		// a library caller that passes LinterOptions.WorkingDir while its process runs somewhere
+		// else (another repository of the world, or /): arguments are absolute
+		w.Opts.WorkingDir = w.Cwd
+		alt := []string{"/", mw.Repos[len(mw.Repos)-1].Root, mw.Repos[0].Root + "/.github"}
+		w.Cwd = alt[c.Int("world.processcwd", len(alt))]
+		w.Disk.MkdirAll(w.Cwd)
+		w.Files = append([]string{}, mw.AbsArgs...)
+		mw.Files = w.Files
+		o.probe("working_dir_option_differs_from_process_cwd", 1)
+	}
 	dh := diskHash(w)
 
 	var fpBefore, fpAfter map[string]uint64
@@ -185,7 +196,7 @@ func c10Isolation(c *Chooser, env *Env, defective, faults bool) *Outcome {
 	anyAloneFatal := ""
 	for i, spelled := range w.Files {
 		abs := mw.AbsArgs[i]
-		key := aloneKey{dh, w.Cwd, spelled, faultDesc}
+		key := aloneKey{dh, w.Cwd + "|" + w.Opts.WorkingDir, spelled, faultDesc}
 		alone, ok := c10Alone[key]
 		if !ok {
 			aw := *w
@@ -215,7 +226,11 @@ func c10Isolation(c *Chooser, env *Env, defective, faults bool) *Outcome {
 		if len(alone.Errs) > 0 {
 			name = alone.Errs[0].File
 		} else {
-			name = printedName(spelled, w.Cwd)
+			base := w.Cwd
+			if w.Opts.WorkingDir != "" {
+				base = w.Opts.WorkingDir
+			}
+			name = printedName(spelled, base)
 		}
 		got := perFile[name]
 		want := alone.Errs
